@@ -635,6 +635,7 @@ WALKERS = {
     "asm::matcher::match_all": "matches instructions (arguments may name symbols)",
     "asm::resolver::iter::ResolveIterator::<'ast, 'decls>::next": "resolution pass",
     "asm::resolver::iter::ResolveIterator::<'ast, 'decls>::next_simple": "constants pre-pass",
+    "asm::defs::bankdef::define": "bank definitions (their fields may name symbols)",
 }
 
 
